@@ -15,12 +15,14 @@ use libp2p_identity::PeerId;
 use libp2p_swarm::{
     ConnectionHandlerEvent, NotifyHandler, StreamProtocol, SubstreamProtocol, ToSwarm,
 };
+use quick_protobuf::sizeofs::sizeof_len;
+use quick_protobuf::MessageWrite;
 use smallvec::SmallVec;
 use tracing::{debug, trace};
 
 use crate::cid_prefix::CidPrefix;
 use crate::incoming_stream::ServerMessage;
-use crate::message::Codec;
+use crate::message::{Codec, MAX_MESSAGE_SIZE};
 use crate::proto::message::{
     mod_Message::Block as ProtoBlock, mod_Message::Wantlist as ProtoWantlist, Message,
 };
@@ -406,9 +408,16 @@ impl<const S: usize> ServerConnectionHandler<S> {
                         continue;
                     }
 
-                    let messages = pending_messages
+                    let mut messages = pending_messages
                         .take()
                         .expect("pending_messages can't be None here");
+
+                    // Send only as many blocks as fit in a message, keep the rest for later.
+                    let remaining = messages.split_off(blocks_fitting_in_message(&messages));
+                    if !remaining.is_empty() {
+                        *pending_messages = Some(remaining);
+                    }
+
                     let message = Message {
                         payload: messages,
                         ..Message::default()
@@ -436,6 +445,22 @@ impl<const S: usize> ServerConnectionHandler<S> {
     > {
         self.poll_outgoing(cx)
     }
+}
+
+/// Returns how many of the leading `blocks` can be sent in a single [`Message`] without
+/// exceeding [`MAX_MESSAGE_SIZE`]. A block that doesn't fit even on its own is sent alone.
+fn blocks_fitting_in_message(blocks: &[ProtoBlock]) -> usize {
+    let mut size = 0;
+
+    for (n, block) in blocks.iter().enumerate() {
+        size += 1 + sizeof_len(block.get_size());
+
+        if size > MAX_MESSAGE_SIZE {
+            return n.max(1);
+        }
+    }
+
+    blocks.len()
 }
 
 async fn get_multiple_cids_from_store<const S: usize, B: Blockstore>(
